@@ -69,4 +69,191 @@ theorem ZeroOn_window (file : ByteArray) (F n : Nat) (h : F + n ≤ file.size) :
     rw [get!_extract file F (F + n) j (by omega) h]
     exact hz (F + j) (by omega) (by omega)
 
+/-! ## `(*DataFile).zeroUntilEnd` -/
+
+abbrev ZSt := datafile.zeroUntilEnd.St
+
+/-- the inner `range` loop over a window that is all zero runs to its end and changes only the range variable -/
+theorem zloop1_zero (rng : ByteArray) : ∀ (k i : Nat) (st : ZSt), i + k = rng.size → ZeroOn rng i rng.size →
+    ∃ st', datafile.zeroUntilEnd.loop1 rng k i st = some (.inl st') ∧
+      st'.from_ = st.from_ ∧ st'.block = st.block ∧ st'.n = st.n := by
+  intro k
+  induction k with
+  | zero => intro i st _ _; exact ⟨st, rfl, rfl, rfl, rfl⟩
+  | succ k ih =>
+    intro i st hik hz
+    have h0 : rng.get! i = 0 := hz i (Nat.le_refl _) (by omega)
+    obtain ⟨st', e, e1, e2, e3⟩ := ih (i + 1) { st with b := (rng.get! i).toNat } (by omega)
+      (ZeroOn_mono rng _ _ _ _ hz (by omega) (Nat.le_refl _))
+    refine ⟨st', ?_, e1, e2, e3⟩
+    rw [datafile.zeroUntilEnd.loop1]
+    simp only [datafile.zeroUntilEnd.body1, h0, UInt8.toNat_zero, ne_eq, not_true_eq_false, ↓reduceIte, Ctl.step]
+    simpa only [h0, UInt8.toNat_zero] using e
+
+/-- … and returns `false` from the function as soon as it meets a non-zero byte -/
+theorem zloop1_nonzero (rng : ByteArray) : ∀ (k i : Nat) (st : ZSt), i + k = rng.size → ¬ ZeroOn rng i rng.size →
+    datafile.zeroUntilEnd.loop1 rng k i st = some (.inr false) := by
+  intro k
+  induction k with
+  | zero =>
+    intro i st hik hz
+    exact absurd (fun j h1 h2 => by omega) hz
+  | succ k ih =>
+    intro i st hik hz
+    rw [datafile.zeroUntilEnd.loop1]
+    by_cases h0 : rng.get! i = 0
+    · have hz' : ¬ ZeroOn rng (i + 1) rng.size := by
+        intro h
+        apply hz
+        intro j h1 h2
+        by_cases hj : j = i
+        · rw [hj]; exact h0
+        · exact h j (by omega) h2
+      simp only [datafile.zeroUntilEnd.body1, h0, UInt8.toNat_zero, ne_eq, not_true_eq_false, ↓reduceIte, Ctl.step]
+      exact ih (i + 1) _ (by omega) hz'
+    · have h1 : (rng.get! i).toNat ≠ 0 := by
+        intro h; apply h0; exact UInt8.toNat_inj.1 (by rw [h]; rfl)
+      simp only [datafile.zeroUntilEnd.body1, ne_eq, h1, not_false_eq_true, ↓reduceIte, Ctl.step]
+
+/-- one iteration of the outer loop: the next window of at most one block is read and tested -/
+theorem zbody0_spec (file : ByteArray) (st : ZSt) (F : Nat) (hF : st.from_ = (F : Int)) (hbs : st.block.size = 32768)
+    (hlt : F < file.size) (hf : file.size < 2^62) :
+    (ZeroOn file F (F + min (file.size - F) 32768) →
+      ∃ st', datafile.zeroUntilEnd.body0 file (file.size : Int) st = .next st' ∧
+        st'.from_ = ((F + min (file.size - F) 32768 : Nat) : Int) ∧ st'.block.size = 32768) ∧
+    (¬ ZeroOn file F (F + min (file.size - F) 32768) →
+      datafile.zeroUntilEnd.body0 file (file.size : Int) st = .ret false) := by
+  obtain ⟨fr, blk, n0, b0⟩ := st
+  simp only [] at hF hbs
+  subst hF
+  generalize hn : min (file.size - F) 32768 = n
+  have hnI : min (i64 ((file.size : Int) - (F : Int))) ((datafile.blockSize : Nat) : Int) = (n : Int) := by
+    rw [i64_of_range (by omega) (by omega)]
+    simp only [datafile.blockSize]
+    omega
+  have hwin := read_window blk file F n 0 (by omega)
+  have hsr := size_read blk file F n (by omega) (by omega)
+  have hrs : (file.extract (F + 0) (F + n)).size = n := by rw [ByteArray.size_extract]; omega
+  have hzw := ZeroOn_window file F n (by omega)
+  rw [Nat.add_zero] at hwin hrs
+  constructor
+  · intro hz
+    obtain ⟨st', e, e1, e2, e3⟩ := zloop1_zero (file.extract F (F + n)) n 0
+      ⟨(F : Int), putAt blk 0 (file.extract F (F + (n - 0))), (n : Int), b0⟩ (by omega)
+      (by rw [hrs]; exact hzw.2 hz)
+    refine ⟨{ st' with from_ := i64 (st'.from_ + st'.n) }, ?_, ?_, ?_⟩
+    · simp only [datafile.zeroUntilEnd.body0, hnI, Int.toNat_natCast, hwin, hrs, e, Ctl.sub]
+    · show i64 (st'.from_ + st'.n) = _
+      rw [e1, e3]
+      simp only []
+      rw [i64_of_range (by omega) (by omega)]
+      omega
+    · show st'.block.size = 32768
+      rw [e2]
+      exact hsr.trans hbs
+  · intro hz
+    have := zloop1_nonzero (file.extract F (F + n)) n 0
+      ⟨(F : Int), putAt blk 0 (file.extract F (F + (n - 0))), (n : Int), b0⟩ (by omega)
+      (by rw [hrs]; exact fun h => hz (hzw.1 h))
+    simp only [datafile.zeroUntilEnd.body0, hnI, Int.toNat_natCast, hwin, hrs, this, Ctl.sub]
+
+theorem allZeroFrom_ge (file : ByteArray) (F : Nat) (h : file.size ≤ F) : allZeroFrom file F = true :=
+  (allZeroFrom_iff file F).2 (fun j h1 h2 => by omega)
+
+/-- the outer loop from position `F`: `true` iff everything from `F` to the end of the file is zero -/
+theorem zloop0_spec (file : ByteArray) (hf : file.size < 2^62) :
+    ∀ (fuel : Nat) (st : ZSt) (F : Nat), st.from_ = (F : Int) → st.block.size = 32768 →
+      (file.size - F) + 1 ≤ fuel →
+      Ctl.after (datafile.zeroUntilEnd.loop0 file (file.size : Int) fuel st) (fun _ => some true)
+        = some (allZeroFrom file F) := by
+  intro fuel
+  induction fuel with
+  | zero => intro st F _ _ h; omega
+  | succ fuel ih =>
+    intro st F hF hbs hfuel
+    rw [datafile.zeroUntilEnd.loop0]
+    by_cases hlt : F < file.size
+    · rw [if_pos (by rw [hF]; omega)]
+      obtain ⟨hz1, hz2⟩ := zbody0_spec file st F hF hbs hlt hf
+      by_cases hz : ZeroOn file F (F + min (file.size - F) 32768)
+      · obtain ⟨st', e, e1, e2⟩ := hz1 hz
+        have hfuel' : file.size - (F + min (file.size - F) 32768) + 1 ≤ fuel := by omega
+        have hi := ih st' (F + min (file.size - F) 32768) e1 e2 hfuel'
+        rw [e]
+        simp only [Ctl.step]
+        rw [hi]
+        refine congrArg some ?_
+        cases hr : allZeroFrom file F
+        · rw [allZeroFrom_eq_false] at hr ⊢
+          exact fun h => hr (ZeroOn_split file _ _ _ hz h)
+        · rw [allZeroFrom_iff] at hr ⊢
+          exact ZeroOn_mono file _ _ _ _ hr (by omega) (Nat.le_refl _)
+      · rw [hz2 hz]
+        simp only [Ctl.step, Ctl.after]
+        refine congrArg some ?_
+        symm
+        rw [allZeroFrom_eq_false]
+        exact fun h => hz (ZeroOn_mono file _ _ _ _ h (Nat.le_refl _) (by omega))
+    · rw [if_neg (by rw [hF]; omega)]
+      simp only [Ctl.after]
+      rw [allZeroFrom_ge file F (by omega)]
+
+/-- **`(*DataFile).zeroUntilEnd` = the model's `allZeroFrom`**: for every file, every content of the pooled
+    block buffer and every start position (also beyond the end), called with `fileSize` = the size of the
+    file, it returns whether all bytes from `from` to the end of the file are zero; the fuel suffices. -/
+theorem trans_zeroUntilEnd_eq (file block0 : ByteArray) (from_ : Nat) (hb0 : block0.size = 32768)
+    (hf : file.size < 2^62) :
+    datafile.zeroUntilEnd block0 file (from_ : Int) (file.size : Int) = some (allZeroFrom file from_) := by
+  simp only [datafile.zeroUntilEnd]
+  exact zloop0_spec file hf _ _ from_ rfl hb0 (by omega)
+
+example : datafile.zeroUntilEnd (mkBytes 32768) ⟨#[1, 0, 0]⟩ 1 3 = some true := by
+  have h := trans_zeroUntilEnd_eq ⟨#[1, 0, 0]⟩ (mkBytes 32768) 1 (by simp) (by decide)
+  have e1 : ((ByteArray.mk #[1, 0, 0]).size : Int) = 3 := rfl
+  have e2 : allZeroFrom ⟨#[1, 0, 0]⟩ 1 = true := by
+    rw [allZeroFrom_iff]
+    intro j h1 h2
+    have h3 : j < 3 := h2
+    have : j = 1 ∨ j = 2 := by omega
+    rcases this with rfl | rfl <;> rfl
+  rw [e1, e2] at h
+  exact h
+
+/-! ## `(*DataReader).next` -/
+
+abbrev NSt := datafile.next.St
+/-- Go results `(data, pos, err)` and the final `reader.blockID`, `reader.offset`, `reader.validEnd` -/
+abbrev NRes := (ByteArray × Option datafile.DataPos × Option String) × Nat × Nat × Int
+
+theorem dec_ok_size {w p : ByteArray} {t : CT} (h : Chunk.dec w = .ok p t) : H + p.size ≤ w.size := by
+  have hH := hH
+  unfold Chunk.dec at h
+  simp only [] at h
+  split at h
+  · cases h
+  · split at h
+    · cases h
+    · split at h
+      · cases h
+      · injection h with h1 h2
+        rw [← h1, ByteArray.size_extract]
+        omega
+
+/-- any sub-window of the block buffer after the read effect -/
+theorem read_sub (b file : ByteArray) (base size lo hi : Nat) (hsz : base + size ≤ file.size) (hhi : hi ≤ size) :
+    (putAt b 0 (file.extract base (base + (size - 0)))).extract lo hi = file.extract (base + lo) (base + hi) := by
+  have h0 := read_window b file base size 0 hsz
+  have : (putAt b 0 (file.extract base (base + (size - 0)))).extract lo hi
+      = ((putAt b 0 (file.extract base (base + (size - 0)))).extract 0 size).extract lo hi := by
+    rw [ByteArray.extract_extract]; congr 1 <;> omega
+  rw [this, h0, ByteArray.extract_extract]
+  congr 1 <;> omega
+
+/-- the model's `hdrLen` is Go's `binary.LittleEndian.Uint16` of the two length bytes -/
+theorem hdrLen_eq_le16 (f : ByteArray) (i : Nat) (h : i + 6 ≤ f.size) :
+    hdrLen f i = le16 (f.extract (i + 4) (i + 6)) := by
+  have hs : (f.extract (i + 4) (i + 6)).size = 2 := by rw [ByteArray.size_extract]; omega
+  unfold hdrLen le16
+  rw [toList_size2 _ hs]
+
 end XixiKV.TransEq
